@@ -94,6 +94,26 @@ def cycle_tail(d):       # a cycle of d states with a tail to the final, and a t
     return dict(tl=tl, finals=[d])
 
 
+def hub(k, parallel=False):
+    """k sources pointing at one state that points at the final (or one source with k parallel edges):
+    the search has k entries waiting at once."""
+    if parallel:
+        return dict(tl=[[("x", 1)] * k, [("x", 2)], [("x", 2)]], finals=[2, 2], shape=f"parallel-{k}")
+    tl = [[("x", k)] for _ in range(k)] + [[("x", k + 1)], [("x", k + 1)]]
+    return dict(tl=tl, finals=[k + 1], shape=f"hub-{k}")
+
+
+def layered(width, depth):
+    """depth layers of `width` states, every state points to two states of the next layer."""
+    tl = []
+    for d in range(depth):
+        for i in range(width):
+            nxt = (d + 1) * width
+            tl.append([("x", nxt + i), ("y", nxt + (i + 1) % width)] if d + 1 < depth else [("x", depth * width)])
+    tl.append([("x", depth * width)])
+    return dict(tl=tl, finals=[depth * width], shape=f"layered-{width}x{depth}")
+
+
 def board_case(length, width, seed):
     r = repo()
     rg = r.roberta_generator
@@ -122,6 +142,15 @@ def deep_cases(tier):
             yield cycle_tail(max(2, d))
         for depth in ((3, 8) if tier == "quick" else (3, 8, 12)):
             yield intree(depth)
+        # more entries waiting at once than 2^16 / 2^17 (work-list compaction, caches), long chains beyond 10^5
+        for k in ((70000, 140000) if tier == "quick" else (70000, 140000, 300000, 1100000)):
+            yield hub(k)
+            yield hub(k, parallel=True)
+        yield chain(150000)
+        yield layered(300, 250)
+        if tier != "quick":
+            yield chain(1200000)
+            yield intree(17)
         boards = [(2, 2, 1), (3, 60, 2)] if tier == "quick" else [(2, 2, 1), (3, 60, 2), (3, 400, 3), (40, 10, 4)]
         for (w, l, s) in boards:
             yield board_case(l, w, s)
@@ -137,9 +166,9 @@ def phases(tier):
 
 def sample_view(case):
     tl = case["tl"]
-    if len(tl) > 12:
-        return dict(n_states=len(tl), finals=case["finals"], first_states=tl[:4], note="large case abbreviated",
-                    board=case.get("board"))
+    if len(tl) > 12 or any(len(l) > 12 for l in tl):
+        return dict(n_states=len(tl), finals=case["finals"], first_states=[l[:4] for l in tl[:4]],
+                    note="large case abbreviated", board=case.get("board"), shape=case.get("shape"))
     return case
 
 
@@ -172,7 +201,7 @@ def check_case(case):
     finals = list(case["finals"])
     v = Verdict()
     n = len(tl)
-    if n > 12:
+    if n > 12 or any(len(l) > 12 for l in tl):
         v.key = dict(n=n, finals=finals, h=__import__('hashlib').sha1(str(tl).encode()).hexdigest())
     seen, depth = ref_backward(tl, finals)
     expect = sorted(seen - set(finals))
